@@ -14,7 +14,7 @@ from typing import Any, Dict, List, Optional
 from . import tlc, trace as trace_mod
 
 VERIF = Path(__file__).resolve().parent.parent
-EVID = VERIF / "evidence"
+EVID = Path(os.environ.get("VERIF_EVIDENCE_DIR") or (VERIF / "evidence"))
 REPLAYS = VERIF / "replays"
 FINDINGS = VERIF / "known_findings.json"
 
